@@ -8,7 +8,7 @@ from collections import Counter
 
 from .. import history as H
 from ..common import dc, dedupe, permuted
-from ..common import nodes_with_metadata
+from ..common import nodes_with_metadata, clone_label
 from ..engine import Clause, Violation
 
 ASSUMPTIONS = [
@@ -217,7 +217,8 @@ def observe(h, U, probes, real):
             o["get_weight"][p] = h.get_weight(rp)
             o["edge_meta"][p] = dc(h.get_edge_metadata(rp))
     src, tgt, inc, nei, deg, mdeg, ind, outd, iso, nmeta = ({} for _ in range(10))
-    for n in nodes:
+    for n0 in nodes:
+        n = clone_label(n0)   # equal label, other object: found by equality
         src[n] = {None: Counter(cdedge(e) for e in h.get_source_edges(n))}
         tgt[n] = {None: Counter(cdedge(e) for e in h.get_target_edges(n))}
         inc[n] = {None: Counter(cdedge(e) for e in h.get_incident_edges(n))}
@@ -357,6 +358,9 @@ class DirectedAdapter(H.Adapter):
 
     def r_set_edge_metadata(self, h, e, meta):
         h.set_edge_metadata(self._t(e), meta)
+
+    def r_get_edge_metadata(self, h, e):
+        return h.get_edge_metadata(self._t(e))
 
     def r_set_attr_edge(self, h, e, f, v):
         h.set_attr_to_edge_metadata(self._t(e), f, v)
